@@ -5,17 +5,17 @@
 # On success stores it as /verif/seeded/<id>-<k>/{patch.diff,demo.rs,meta.json}.
 set -u
 id=$1; k=$2; src=$3; off=${4:-0}; kk=$((k+off))
-W=/tmp/vseed-wt
-export CARGO_NET_OFFLINE=true CARGO_TARGET_DIR=/tmp/vseed-target
+W=/tmp/vseed-wt${LANE:-}
+export CARGO_NET_OFFLINE=true CARGO_TARGET_DIR=/tmp/vseed-target${LANE:-}
 if [ ! -d $W ]; then git -C /repo worktree add --detach $W HEAD >/dev/null 2>&1 || exit 2; fi
 cd $W && git checkout -q --detach $(git -C /repo rev-parse HEAD) && git checkout -- . && git clean -fdq
 rm -rf tests; 
 git apply $src/OUT/patch_$k.diff || { echo "$id-$k: patch does not apply"; exit 1; }
 suite=$(cargo test --workspace --no-fail-fast --offline 2>&1 | grep -E "^test result" | awk '{p+=$4; f+=$6} END {print p" passed "f" failed"}')
 mkdir -p tests && cp $src/OUT/demo_$k.rs tests/demo.rs
-cargo test --offline --test demo >/tmp/vseed-demo-with.log 2>&1; with=$?
+cargo test --offline --test demo >/tmp/vseed-demo-with${LANE:-}.log 2>&1; with=$?
 git checkout -- src Cargo.toml
-cargo test --offline --test demo >/tmp/vseed-demo-without.log 2>&1; without=$?
+cargo test --offline --test demo >/tmp/vseed-demo-without${LANE:-}.log 2>&1; without=$?
 rm -rf tests
 echo "$id-$kk: suite_with_change=[$suite] demo_with_change_rc=$with demo_without_rc=$without"
 if [[ "$suite" == *" 0 failed" && $with -ne 0 && $without -eq 0 ]]; then
@@ -25,7 +25,7 @@ if [[ "$suite" == *" 0 failed" && $with -ne 0 && $without -eq 0 ]]; then
 import json,sys
 pid,k,src,suite,d=sys.argv[1:]
 meta=open(f"{src}/OUT/meta_{k}.txt").read()
-json.dump({"property":pid,"source":"independent sub-agent given only the property text and a scratch worktree" + (" (second round: asked for less obvious locations)" if int(k)>0 and "wt2" in src else ""),
+json.dump({"property":pid,"source":"independent sub-agent given only the property text and a scratch worktree" + (" (second round: asked for less obvious locations)" if "wt2" in src else " (third round: three changes per property, less obvious locations)" if "wt3" in src else ""),
  "needs_to_manifest":meta.strip(),
  "verified":{"suite_with_change":suite,"demo_with_change":"fails","demo_without_change":"passes",
    "how":"tools/verify_seed.sh in a scratch worktree of /repo (cargo test --workspace --no-fail-fast --offline; cargo test --test demo)",
@@ -34,5 +34,5 @@ json.dump({"property":pid,"source":"independent sub-agent given only the propert
 PY
   echo "$id-$kk: KEPT"
 else
-  echo "$id-$kk: REJECTED"; tail -5 /tmp/vseed-demo-with.log
+  echo "$id-$kk: REJECTED"; tail -5 /tmp/vseed-demo-with${LANE:-}.log
 fi
